@@ -1213,6 +1213,34 @@ func forcedDeadlock(args []string) int {
 			}
 		}
 	}
+	// "the response the remote handler produced for that very request": the payload a call returns must be the one
+	// produced for the request id of its LAST attempt (a late response to an earlier attempt that was left behind in a
+	// re-used channel is a response delivered to a different request)
+	if res.Violation == "" && res.Established {
+		for _, c := range []callResult{x, y} {
+			if c.Hung || c.Res != "resp" {
+				continue
+			}
+			var gid int64 = -1
+			last := ""
+			for _, e := range evs {
+				if e.Point == "call.start" && e.Call == c.Call {
+					gid = e.Gid
+				}
+				if e.Point == "req.registered" && e.Gid == gid && gid >= 0 {
+					last = e.ID
+				}
+			}
+			p.rs.mu.Lock()
+			want, have := p.rs.produced[last]
+			p.rs.mu.Unlock()
+			if !have || want != c.Data {
+				res.Violation = "miscorrelated-response:after-late-response"
+				res.What = fmt.Sprintf("forced schedule on the real code: attempt 0 of call 1 timed out and its late response arrived while the requester was between its select and the unregistration; call %d then returned payload %q, the remote handler produced %q for the request id %s of its last attempt", c.Call, c.Data, want, last)
+				break
+			}
+		}
+	}
 	p2p.VerifSetHook(nil)
 	writeForcedTrace(tracePath, evs, 2, p, map[int]callResult{1: x, 2: y}, &res)
 	return 0
